@@ -397,6 +397,22 @@ def selection_shapes():
                               asserts="accessors of the un-attributed variants exist and agree with the value")],
                      decl.replace("\n", " "), exercises=["impl/src/unwrap.rs::expand", "impl/src/try_unwrap.rs::expand", "impl/src/is_variant.rs::expand",
                                                           "impl/src/utils.rs::State::new_impl (default_enabled)"]))
+    # exactly one non-ignored variant: `is_x()` still has to look at the value
+    variants = [Var("Data", "data", "tuple", ["V"]), Var("Heartbeat", "heartbeat", "unit", [], attrs="#[is_variant(ignore)]", ignored=True),
+                Var("Other", "other", "tuple", ["W"], attrs="#[is_variant(ignore)]", ignored=True)]
+    decl = "#[derive(Clone, Copy, PartialEq, Debug, derive_more::IsVariant)]\npub enum E {\n%s\n}" % "\n".join(v.decl() for v in variants)
+    src = """    #[kani::proof]
+    fn is_variant_with_a_single_enabled_variant() {
+        let v = any_e();
+        assert!(v.is_data() == matches!(v, E::Data(..)), "is_data() must be true iff the value is Data - also for values of the ignored variants");
+        kani::cover!(v.is_data(), "reach Data");
+        kani::cover!(matches!(v, E::Heartbeat), "reach an ignored variant");
+    }
+"""
+    out.append(Shape("c11_is_variant_single_enabled_variant", module(decl, any_e(variants), src),
+                     [Harness("is_variant_with_a_single_enabled_variant", "the value: variant and payloads symbolic", covers=2,
+                              asserts="is_x() == (v is X) when X is the only non-ignored variant")],
+                     decl.replace("\n", " "), exercises=["impl/src/is_variant.rs::expand"]))
     return out
 
 
